@@ -5,14 +5,17 @@ from .wrap import CanCustomize
 
 class BoundCallable(CanCustomize, object):
     def __init__(self, executor, fn):
-        self.__executor = executor
-        self.__fn = fn
-
         try:
             update_wrapper(self, fn)
         except AttributeError:
             # Update wrapper if we can, but not fatal if we can't
             pass
+
+        # Set these only after update_wrapper: it copies fn.__dict__ onto us,
+        # and if fn is itself a BoundCallable that includes *its* executor
+        # and function, which must not replace ours.
+        self.__executor = executor
+        self.__fn = fn
 
     @property
     def _name(self):
